@@ -83,26 +83,17 @@ Qed.
 
 Lemma intern_ext : forall r t, exists ext, fst (intern t r) = t ++ ext.
 Proof.
-  induction r as [c|ty x|ty x acc IHa k|x acc IHa asset IHs|ra IH n]; intros t; simpl.
-  - destruct (intern1 t (RConst c)) as [t' a] eqn:E. destruct (proj1 (intern1_spec _ _ _ _ E)) as [ext ->]. exists ext. reflexivity.
-  - destruct (intern1 t (RVar ty x)) as [t' a] eqn:E. destruct (proj1 (intern1_spec _ _ _ _ E)) as [ext ->]. exists ext. reflexivity.
-  - destruct (IHa t) as [e1 H1]. rewrite H1. destruct (intern1 (t ++ e1) (RVarMeta ty x acc k)) as [t' a] eqn:E.
-    destruct (proj1 (intern1_spec _ _ _ _ E)) as [ext ->]. exists (e1 ++ ext). simpl. rewrite app_assoc. reflexivity.
-  - destruct (IHa t) as [e1 H1]. rewrite H1. destruct (IHs (t ++ e1)) as [e2 H2]. rewrite H2.
-    destruct (intern1 ((t ++ e1) ++ e2) (RVarBal x acc asset)) as [t' a] eqn:E.
-    destruct (proj1 (intern1_spec _ _ _ _ E)) as [ext ->]. exists (e1 ++ e2 ++ ext). simpl. rewrite !app_assoc. reflexivity.
-  - destruct (IH t) as [e1 H1]. rewrite H1. destruct (intern1 (t ++ e1) (RMon ra n)) as [t' a] eqn:E.
-    destruct (proj1 (intern1_spec _ _ _ _ E)) as [ext ->]. exists (e1 ++ ext). simpl. rewrite app_assoc. reflexivity.
+  induction r as [c|ty x|ty x acc IHa k|x acc IHa asset IHs|ra IH n]; intros t; simpl;
+    try (match goal with |- context[intern1 t ?r] => destruct (intern1 t r) as [t' a] eqn:E end;
+         destruct (proj1 (intern1_spec _ _ _ _ E)) as [ext ->]; exists ext; reflexivity).
+  destruct (IH t) as [e1 H1]. rewrite H1. destruct (intern1 (t ++ e1) (RMon ra n)) as [t' a] eqn:E.
+  destruct (proj1 (intern1_spec _ _ _ _ E)) as [ext ->]. exists (e1 ++ ext). simpl. rewrite app_assoc. reflexivity.
 Qed.
 
 Lemma intern_points r t : points (fst (intern t r)) (snd (intern t r)) r.
 Proof.
-  destruct r; simpl.
-  - destruct (intern1 t (RConst c)) as [t' a] eqn:E. apply (intern1_spec _ _ _ _ E).
-  - destruct (intern1 t (RVar t0 x)) as [t' a] eqn:E. apply (intern1_spec _ _ _ _ E).
-  - destruct (intern1 _ (RVarMeta t0 x r k)) as [t' a] eqn:E. apply (intern1_spec _ _ _ _ E).
-  - destruct (intern1 _ (RVarBal x r1 r2)) as [t' a] eqn:E. apply (intern1_spec _ _ _ _ E).
-  - destruct (intern1 _ (RMon r n)) as [t' a] eqn:E. apply (intern1_spec _ _ _ _ E).
+  destruct r; simpl;
+    match goal with |- context[intern1 ?t0 ?r0] => destruct (intern1 t0 r0) as [t' a] eqn:E end; apply (intern1_spec _ _ _ _ E).
 Qed.
 
 Lemma assign_ext evs : forall t is t', assign evs t = (is, t') -> exists ext, t' = t ++ ext.
